@@ -31,20 +31,30 @@ def with_nonorth(spec, settings):
 
 def plan(tier, seed):
     bases = [cases.tok("cdn", s=1, fs=1, orth=False, tag="c15-cdn")]
-    hist_idx = [[0], [1, 5], [2, 4, 2]]  # [1, 5]: the last call changes only the radial power
+    # an entry may be a tuple = union of palette entries; [5] and [1, (1, 5)] end with a call that
+    # changes ONLY the radial power, [(1, 3)...] only the method
+    hist_idx = [[5], [1, (1, 5)], [2, 4, 2]]
     if tier == "thorough":
         bases += [cases.tok("ldn", s=-1, fs=1, orth=False, tag="c15-ldn"), cases.tok("udn", s=1, fs=-1, orth=False, guards=2, tag="c15-udn"), cases.tok("lsn", s=-1, fs=1, orth=False, tag="c15-lsn", nonorthogonal_spacing_method="poloidal_orthogonal_combined")]
-        hist_idx += [[3, 0, 3, 1], [0, 0], [5, 6, 3], [6, 4]]
+        hist_idx += [[3, 0, 3, 1], [0, 0], [5, 6, 3], [6, 4], [0, (0, 3)], [6, (6, 5), 6]]
     cs = []
     jobs = []
     for b in bases:
         for hi in hist_idx:
-            hist = [PALETTE[i] for i in hi]
+            hist = []
+            for i in hi:
+                if isinstance(i, tuple):
+                    u = {}
+                    for k in i:
+                        u.update(PALETTE[k])
+                    hist.append(u)
+                else:
+                    hist.append(PALETTE[i])
             h = copy.deepcopy(b)
             h["history"] = hist
-            h["tag"] = b["tag"] + "-hist" + "".join(map(str, hi))
+            h["tag"] = b["tag"] + "-hist" + "_".join(str(i).replace(" ", "") for i in hi)
             f = with_nonorth(b, hist[-1])
-            f["tag"] = b["tag"] + "-fresh%d" % hi[-1]
+            f["tag"] = b["tag"] + "-fresh" + str(hi[-1]).replace(" ", "")
             cs += [h, f]
             jobs.append({"name": "c15-" + h["tag"], "module": "vmon.jobs.pair_compare", "args": {"mode": "close", "a": h, "b": f, "pos_tol": 1e-7, "rel_tol": 1e-6, "cls": "history length %d vs fresh build" % len(hi)}, "timeout": 600})
     # de-duplicate fresh cases
